@@ -175,7 +175,13 @@ def check_cli(cr, ctx):
     if not (cr["dir"] / "out.info.yaml").exists():
         ctx.violation("statistics-report-not-written", "the run succeeded and wrote its assemblies but no <output>.info.yaml", case)
         return
-    info = yaml.safe_load((cr["dir"] / "out.info.yaml").read_text())
+    try:
+        info = yaml.safe_load((cr["dir"] / "out.info.yaml").read_text())
+        if not isinstance(info, dict):
+            raise ValueError(f"not a mapping: {info!r}")
+    except Exception as e:  # noqa: BLE001
+        ctx.violation("statistics-report-unreadable", f"info.yaml after the run cannot be read: {type(e).__name__}: {str(e)[:300]}", case)
+        return
     if stale and "old1" in (info.get("assemblies") or {}):
         ctx.violation("statistics-report-is-that-of-an-earlier-run", f"info.yaml after the run: {info}", case)
         return
@@ -250,6 +256,7 @@ def gates(c, tier):
         "metamorphic:output-scaffolds-named-alike": 3000,
         "metamorphic:input-scaffold-edited-between-counts": 2000,
         "label:in:1bp-contig": 100,
+        "label:cfg:prefix-assigned-again-after-remap": 1000,
         "label:in:gap-only-scaffold": 30,
         "cli:ok": 20,
         "cli:with-haplotigs": 3,
